@@ -1,4 +1,5 @@
 import Lemmas.Rev.ResolveFacts
+import Lemmas.Rev.Bridge
 import Props.C15
 /-!
 # C16 — revision identifiers resolve to the right revision or fail loudly
@@ -347,5 +348,77 @@ theorem walk_down_exact (m : LMap) (label : Option String) :
             exact ⟨s, by omega, rfl, h3⟩
           | succ k' =>
             simp [walk.go, walkStep, bind, Except.bind, pure, Except.pure] at h
+
+/-! ### the distance oracle `Spec.Rev.stepsDown` and the walk, in terms of the history as written -/
+
+theorem pathN_congr {f g : Id → List Id} (hfg : ∀ i, f i = g i) : ∀ n s r, PathN f n s r → PathN g n s r := by
+  intro n
+  induction n with
+  | zero => intro s r h; exact h
+  | succ k ih =>
+    intro s r h
+    obtain ⟨c, hc, hp⟩ := h
+    exact ⟨c, by rw [← hfg s]; exact hc, ih c r hp⟩
+
+/-- **What a `true` verdict of the distance oracle means**: there is a chain of exactly `n`
+`down_revision` links (as written in the history) from `r` down to `a`. -/
+theorem stepsDown_iff (h : Hist) : ∀ (n : Nat) (r a : Id),
+    stepsDown h n r (some a) = true ↔ PathN (downParents h) n r a := by
+  intro n
+  induction n with
+  | zero => intro r a; simp [stepsDown, PathN]
+  | succ k ih =>
+    intro r a
+    simp only [stepsDown, Bool.false_or, List.any_eq_true, PathN]
+    constructor
+    · rintro ⟨p, hp, hs⟩; exact ⟨p, hp, (ih p a).mp hs⟩
+    · rintro ⟨p, hp, hs⟩; exact ⟨p, hp, (ih p a).mpr hs⟩
+
+/-- **`id-N`, end to end**: in a loaded history a downward relative walk that returns a revision
+returns one exactly `N` `down_revision` links, as written in the revision files, below the start
+— the statement the oracle `stepsDown` decides on the implementation's answers. -/
+theorem walk_down_history {h : Hist} {o : LoadOpts} {m : LMap} (hl : load h o = .ok m)
+    (hu : (h.map (·.id)).Nodup) (label : Option String) (n : Nat) (s r : Id)
+    (hw : walk.go m (-1 : Int) label true n (some s) false = .ok (some (some r))) :
+    stepsDown h n s (some r) = true := by
+  have hp := walk_down_exact m label n s (some r) hw
+  exact (stepsDown_iff h n s r).mpr (pathN_congr (fun i => downOf_eq_downParents hl hu i) n s r hp)
+
+theorem pathN_snoc {g : Id → List Id} : ∀ (k : Nat) (r c s : Id), PathN g k r c → s ∈ g c → PathN g (k + 1) r s := by
+  intro k
+  induction k with
+  | zero =>
+    intro r c s h hs
+    have e : r = c := h
+    subst e
+    exact ⟨s, hs, rfl⟩
+  | succ k ih =>
+    intro r c s h hs
+    obtain ⟨d, hd, hp⟩ := h
+    exact ⟨d, hd, ih d c s hp hs⟩
+
+theorem pathN_reverse {f g : Id → List Id} (hfg : ∀ a b, b ∈ f a → a ∈ g b) :
+    ∀ (n : Nat) (s r : Id), PathN f n s r → PathN g n r s := by
+  intro n
+  induction n with
+  | zero => intro s r h; exact (h : s = r).symm
+  | succ k ih =>
+    intro s r h
+    obtain ⟨c, hc, hp⟩ := h
+    exact pathN_snoc k r c s (ih c r hp) (hfg s c hc)
+
+/-- **`id+N`, end to end**: in a loaded history an upward relative walk that returns a revision
+returns one from which exactly `N` `down_revision` links, as written in the revision files, lead
+down to the start. -/
+theorem walk_up_history {h : Hist} {o : LoadOpts} {m : LMap} (hl : load h o = .ok m)
+    (hu : (h.map (·.id)).Nodup) (hd : ∀ r ∈ h, ∀ d ∈ r.down, d ∈ h.map (·.id))
+    (label : Option String) (n : Nat) (s r : Id)
+    (hw : walk.go m (1 : Int) label true n (some s) false = .ok (some (some r))) :
+    stepsDown h n r (some s) = true := by
+  have L := loaded_of_load hl hu hd
+  have hp := walk_up_exact m label n s r hw
+  have hrev : PathN m.downOf n r s :=
+    pathN_reverse (fun a b hb => ((nextrev_iff m L.ids_nodup a b).mp hb).2) n s r hp
+  exact (stepsDown_iff h n r s).mpr (pathN_congr (fun i => downOf_eq_downParents hl hu i) n r s hrev)
 
 end C16
